@@ -7,6 +7,7 @@ import (
 	"io"
 	"net"
 	"net/http"
+	"slices"
 	"sort"
 	"strconv"
 	"strings"
@@ -288,6 +289,11 @@ func runDial(tt *testing.T, tape *simrt.Tape, keep bool) (out simrt.Outcome) {
 			opts = append(opts, vegeta.Workers(3), vegeta.MaxBody(10), vegeta.Redirects(1), vegeta.Timeout(time.Minute))
 		}
 		pool := simrt.SitesIn("bp", "lib/attack.go:DNSCaching", "lib/attack.go:ConnectTo", "lib/attack.go:firstOfEachIPFamily")
+		// not inside the goroutines the dial function starts, one per address family: two of them parked at the same
+		// breakpoint are indistinguishable (no payload, no identity yet), and which is which would then hang on
+		// goroutine ids, which are not creation-ordered when the parent changes processor between the two go
+		// statements (determinism self-test, one process in twenty under load). They still park at the dial itself.
+		pool = slices.DeleteFunc(pool, func(id int) bool { return strings.HasSuffix(simrt.Sites()[id].Func, "#go") })
 		skips := map[int]int{}
 		var arms []int
 		for i := 0; i < tape.Biased(4, 1, 3) && len(pool) > 0; i++ {
